@@ -10,6 +10,7 @@ UNIT = dict(
     ('laythe_vm/src/byte_code.rs', ['struct Label', ('impl Label', ['new', 'val']), 'enum CaptureIndex', 'enum SymbolicByteCode']),
     ('laythe_core/src/object/fun.rs', ['enum FunKind']),
     ('laythe_vm/src/compiler/ir/ast.rs', ['enum BinaryOp', 'enum UnaryOp']),
+    ('laythe_vm/src/compiler/ir/symbol_table.rs', ['enum SymbolState']),
     ('laythe_vm/src/compiler/mod.rs', ['struct TryAttributes', 'struct LoopAttributes',
        ("impl<'a, 'src: 'a> Compiler<'a, 'src>", ['child', 'try_depth', 'emit_return', 'return_', 'continue_', 'break_', 'loop_scope', 'try_', 'while_', 'if_', 'binary', 'unary', 'ternary'])]),
   ],
@@ -21,6 +22,8 @@ UNIT = dict(
     ('R11', 'enum SymbolicByteCode', dict(pat='  #[default]\n', rep='', count=1)),
     ('R11', 'enum SymbolicByteCode', dict(pat='  #[allow(dead_code)]\n', rep='', count=1)),
     ('R11', 'enum FunKind', dict(drop=['Debug'], add=['Structural'])),
+    ('R11', 'enum SymbolState', dict(drop=['Debug', 'Default'], add=['Structural'])),
+    ('R11', 'enum SymbolState', dict(pat='  #[default]\n', rep='', count=1)),
     ('R11', 'struct TryAttributes', dict(drop=['Debug'])), ('R11', 'struct LoopAttributes', dict(drop=['Debug'])),
     ('R5', 'kind:implhdr', dict(pat=r"impl<'a, 'src: 'a> Compiler<'a, 'src> \{", rep='impl Compiler {', regex=True, optional=True)),
     ('R5', 'Compiler::*', dict(pat=r"&'a ast::(\w+)<'src>", rep=r'&\1', regex=True, optional=True)),
